@@ -10,7 +10,7 @@ FIRST = {  # result of the FIRST run of my checks against the seed, recorded whe
     "C04-3": "exit 2 in C05 (anchor-vanished), no finding", "C04-4": "missed", "C05-3": "missed", "C09-4": "missed", "C10-3": "missed", "C10-4": "missed",
     "C16-4": "exit 2 (anchor-vanished), no finding",
     "C06-3": "other property only (C03.e2, C08.f)", "C06-4": "missed", "C08-3": "missed", "C11-4": "missed", "C12-3": "missed",
-    "C18-3": "other property only (C02.a, C03.g)", "C19-3": "missed", "C19-4": "missed", "C12-4": "missed", "C07-3": "missed", "C07-4": "missed",
+    "C18-3": "other property only (C02.a, C03.g)", "C19-3": "missed", "C19-4": "missed", "C12-4": "missed", "C07-3": "missed", "C07-4": "missed", "C20-3": "missed", "C20-4": "missed",
     "C11-1": "missed", "C11-2": "missed", "C07-1": "missed", "C07-2": "missed", "C20-1": "missed", "C13-2": "missed",
 }
 ADDED = {"C01-2": "C01.d fresh-only cursor", "C02-2": "C09.d/C02.h owner re-arm protocol", "C04-1": "C04.b children-before-clear", "C04-2": "C04.g accessor family",
@@ -25,7 +25,7 @@ ADDED = {"C01-2": "C01.d fresh-only cursor", "C02-2": "C09.d/C02.h owner re-arm 
          "C04-4": "C05.g removal tables / C04.i", "C05-3": "C05.g removal tables", "C09-4": "C09.g capture ordinals", "C10-3": "C10.k key-source compatibility",
          "C10-4": "C10.k per-cycle membership list", "C16-4": "C16.f wake-all requirement (finding instead of exit 2)",
          "C06-3": "C06.a2 whole-field comparison", "C06-4": "C06.f pass-through ordinal", "C08-3": "C08.b no stronger gate on the sink",
-         "C11-4": "C11.g swap-remove bookkeeping", "C12-3": "C12.h output reset table (an earlier draft of this seed, withdrawn by its author, gave C12.g slot layout)", "C12-4": "C12.i keyword slot numbering", "C07-3": "C07.f GlobalState accumulators: recorder start erases its key on every path", "C07-4": "C07.g scope-stack pushes are owned (guard / RAII)", "C18-3": "C18.g (C02.a shared into C18)",
+         "C11-4": "C11.g swap-remove bookkeeping", "C12-3": "C12.h output reset table (an earlier draft of this seed, withdrawn by its author, gave C12.g slot layout)", "C12-4": "C12.i keyword slot numbering", "C07-3": "C07.f GlobalState accumulators: recorder start erases its key on every path", "C07-4": "C07.g scope-stack pushes are owned (guard / RAII)", "C20-3": "C20.i recovery fold applies each delta at its own time", "C20-4": "C20.j list-storage copies carry the validity bitmap", "C18-3": "C18.g (C02.a shared into C18)",
          "C19-3": "C19.h match/resolve field agreement", "C19-4": "C19.i defaults counted",
          "C20-1": "C20.d all container captures", "C13-2": "C13.k slot-id bounds (slot ids are sparse)"}
 rows = []
